@@ -57,7 +57,9 @@ func (e *Exec) contractHeapNames(info *types.Info, call *ast.CallExpr) (map[stri
 	if e.heapSorts == nil {
 		e.heapSorts = map[string]string{}
 	}
-	for _, m := range fc.Modifies {
+	for _, m0 := range fc.Modifies {
+		parts := strings.Split(m0, ".")
+		m := parts[0]
 		var t types.Type
 		switch {
 		case clo != nil:
@@ -76,14 +78,32 @@ func (e *Exec) contractHeapNames(info *types.Info, call *ast.CallExpr) (map[stri
 		if t == nil {
 			return nil, false
 		}
+		// follow a field path to the reference that is written
+		for _, f := range parts[1:] {
+			t = fieldType(t, f)
+			if t == nil {
+				return nil, false
+			}
+		}
+		// the cell can be named only when the callee's parameter is bound to a plain variable of the caller
+		cell := ""
+		if len(parts) == 1 {
+			if clo != nil {
+				cell = m // free variable of a closure: the caller's own variable
+			} else if a := argFor(fn, call, m); a != nil {
+				if id, ok := ast.Unparen(a).(*ast.Ident); ok {
+					cell = id.Name
+				}
+			}
+		}
 		switch u := t.Underlying().(type) {
 		case *types.Map:
 			n, s := e.mapHeap(u)
-			out[n+"\x00"+m] = true
+			out[n+"\x00"+cell] = true
 			e.heapSorts[n] = s
 		case *types.Pointer:
 			n, s := e.ptrHeap(u.Elem())
-			out[n+"\x00"+m] = true
+			out[n+"\x00"+cell] = true
 			e.heapSorts[n] = s
 		default:
 			return nil, false
@@ -188,4 +208,44 @@ func (e *Exec) isCaptured(v *types.Var) bool {
 		return false
 	}
 	return v.Pos() < lit.Pos() || v.Pos() > lit.End()
+}
+
+// fieldType returns the type of field f of (a pointer to) a struct type, or nil.
+func fieldType(t types.Type, f string) types.Type {
+	if p, ok := t.Underlying().(*types.Pointer); ok {
+		t = p.Elem()
+	}
+	st, ok := t.Underlying().(*types.Struct)
+	if !ok {
+		return nil
+	}
+	for i := 0; i < st.NumFields(); i++ {
+		if st.Field(i).Name() == f {
+			return st.Field(i).Type()
+		}
+	}
+	return nil
+}
+
+// argFor returns the caller's expression bound to the callee's parameter (or receiver) of that name.
+func argFor(fn *types.Func, call *ast.CallExpr, name string) ast.Expr {
+	if fn == nil {
+		return nil
+	}
+	sig := fn.Type().(*types.Signature)
+	if r := sig.Recv(); r != nil && r.Name() == name {
+		if sel, ok := ast.Unparen(call.Fun).(*ast.SelectorExpr); ok {
+			return sel.X
+		}
+		return nil
+	}
+	for i := 0; i < sig.Params().Len() && i < len(call.Args); i++ {
+		if sig.Params().At(i).Name() == name {
+			if sig.Variadic() && i == sig.Params().Len()-1 {
+				return nil
+			}
+			return call.Args[i]
+		}
+	}
+	return nil
 }
